@@ -285,6 +285,25 @@ impl C04 {
                 use_edit_de_error(ctx, &e);
             }
         }
+        // the whole document, and a value on its own, asked for together with their spans
+        if let Some(r) = mon(ctx, "toml::from_str::<Spanned<Value>>", || toml::from_str::<serde_spanned::Spanned<toml::Value>>(text)) {
+            match r {
+                Ok(v) => {
+                    mon(ctx, "Spanned::span", || v.span().len());
+                }
+                Err(e) => use_de_error(ctx, &e),
+            }
+        }
+        if let Some(r) = mon(ctx, "toml_edit::de::from_str::<Spanned<Value>>", || toml_edit::de::from_str::<serde_spanned::Spanned<toml::Value>>(text)) {
+            if let Err(e) = r {
+                use_edit_de_error(ctx, &e);
+            }
+        }
+        if let Some(r) = mon(ctx, "toml_edit::de::ValueDeserializer -> Spanned<Value>", || text.parse::<toml_edit::de::ValueDeserializer>().and_then(|d| serde_spanned::Spanned::<toml::Value>::deserialize(d))) {
+            if let Err(e) = r {
+                use_edit_de_error(ctx, &e);
+            }
+        }
         if let Some(r) = mon(ctx, "toml::de::ValueDeserializer", || toml::Value::deserialize(toml::de::ValueDeserializer::new(text))) {
             if let Err(e) = r {
                 use_de_error(ctx, &e);
